@@ -3,6 +3,7 @@ import RxProofs.Lemmas.StructConn
 import RxProofs.Lemmas.StructConnRc
 import RxProofs.Lemmas.StructConnAc
 import RxProofs.Lemmas.StructSubj
+import RxProofs.Lemmas.StructConnSync
 /-!
 # C24 — multicasting shares one source subscription per connection
 
@@ -143,6 +144,45 @@ theorem late_subscriber_gets_terminal (s : Subj α) (i : Nat) (t : Notif α) (ht
   constructor
   · intro hr; simp [Subj.subscribe, hr, ht]
   · intro hr; simp [Subj.subscribe, hr, ht]
+
+/-! ### Synchronously emitting sources and calls made from inside callbacks (`RxModel/ConnSync.lean`) -/
+section sync
+open Conn.Sync
+
+/-- **sync_one_source_subscription.** With a source that emits from inside its `subscribe`, and
+subscribers that call `connect()` / subscribe (through any `ref_count` view) / dispose other
+subscriptions from inside `on_next`, to any depth: never more than one source subscription is open,
+over the whole history (`maxOpen` is the high-water mark), and none while not connected. -/
+theorem sync_one_source_subscription (w : SW) (hf : SFresh w) (ops : List SOp) (fuel : Nat) :
+    (Sync.run w ops fuel).maxOpen ≤ 1 ∧ (Sync.run w ops fuel).srcOpen.length ≤ 1 ∧
+    ((Sync.run w ops fuel).hasSub = false → (Sync.run w ops fuel).srcOpen = []) := by
+  have h := Sync.run_inv ops fuel w hf.inv
+  exact ⟨h.mx, h.len, fun hs => (h.off hs).1⟩
+
+/-- **connect_reentrant_noop.** A `connect()` reached while a connection exists or is being made
+(the flag is set before the source is subscribed) subscribes nothing. -/
+theorem connect_reentrant_noop (w : SW) (hs : w.hasSub = true) : Sync.step w .connect = (w, []) := by
+  simp [Sync.step, hs]
+
+/-- the first subscriber of `share()` over a source emitting 1,2,3 inside `subscribe` receives all
+three (it is attached to the subject before the connection is made) -/
+example :
+    Sync.outputsOf (Sync.run { subj := {}, syncMsgs := [.next 1, .next 2, .next 3] } [.sub 0 (some 0) none] 100) 0
+    = [.next 101, .next 102, .next 103] := by decide
+
+/-- two `ref_count` views of one published source; the second view's first subscriber arrives while
+the first value is being delivered: one source subscription, it sees the rest -/
+example :
+    let r := Sync.run { subj := {}, syncMsgs := [.next 1, .next 2], actions := [.sub 1 (some 1) none] }
+      [.sub 0 (some 0) (some (1, 0))] 100
+    r.nSrc = 1 ∧ Sync.outputsOf r 0 = [.next 101, .next 102] ∧ Sync.outputsOf r 1 = [.next 102] := by decide
+
+/-- an explicit re-entrant `connect()` from the first delivery does not subscribe the source again -/
+example :
+    let r := Sync.run { subj := {}, syncMsgs := [.next 1, .next 2], actions := [.connect] }
+      [.sub 0 none (some (1, 0)), .connect] 100
+    r.nSrc = 1 ∧ r.maxOpen = 1 ∧ Sync.outputsOf r 0 = [.next 101, .next 102] := by decide
+end sync
 
 /-! Non-vacuity: concrete histories. -/
 section examples
